@@ -13,7 +13,7 @@ violation is the caller's decision.
 import os
 import traceback
 
-from hio.core.http import clienting, serving
+from hio.core.http import clienting, httping, serving
 
 from .. import env
 from ..gen_http import b2s
@@ -126,3 +126,32 @@ def feed(kind, pieces, close=False, req_method="GET", parsent=None):
 def comparable(res):
     """what must be identical between two feeds of the same bytes"""
     return {k: v for k, v in res.items() if k != "parses"}
+
+
+_PROBE = {}
+
+
+def line_probe():
+    """Two direct observations of the tree's line splitter, used ONLY to label a mismatch with its mechanism
+    (never to decide one):
+      precedence  True when parseLine(eols=(CRLF, LF)) on b"a\\nb\\r\\n" returns b"a\\nb" (terminator chosen by type, not position)
+      crsplit     True when, after b"a\\r" then b"\\nb\\r\\n" with eols (CRLF, LF, CR), the second line is not b"b"
+    """
+    if not _PROBE:
+        try:
+            g = httping.parseLine(bytearray(b"a\nb\r\n"), eols=(httping.CRLF, httping.LF))
+            _PROBE["precedence"] = bytes(next(g) or b"") != b"a"
+        except Exception:
+            _PROBE["precedence"] = True
+        try:
+            raw = bytearray(b"a\r")
+            g = httping.parseLine(raw, eols=(httping.CRLF, httping.LF, httping.CR))
+            first = next(g)
+            raw.extend(b"\nb\r\n")
+            second = next(g)
+            if second is None:
+                second = next(g)
+            _PROBE["crsplit"] = not (bytes(first or b"") == b"a" and bytes(second or b"") == b"b")
+        except Exception:
+            _PROBE["crsplit"] = True
+    return _PROBE
